@@ -352,7 +352,8 @@ class World(OpsMixin, OracleMixin):
         if end == "raise":
             if self.no_faults:
                 return "return", None
-            return "raise", self.new_exc(f"body:{t.tid}")
+            t.user_raised = self.new_exc(f"body:{t.tid}")
+            return "raise", t.user_raised
         if end == "selfcancel_raise":
             # the coroutine itself ends with CancelledError without being cancelled
             return "cancelled", CancelledError()
@@ -502,7 +503,8 @@ class World(OpsMixin, OracleMixin):
                 finally:
                     world._cb_exit(t, kind)
                 if spec.get("raise") and not world.no_faults:
-                    raise world.new_exc(f"{kind}cb:{tid}")
+                    t.user_raised = world.new_exc(f"{kind}cb:{tid}")
+                    raise t.user_raised
         else:
             def cb(tid):
                 t = enter(tid)
@@ -515,7 +517,8 @@ class World(OpsMixin, OracleMixin):
                 finally:
                     world._cb_exit(t, kind)
                 if spec.get("raise") and not world.no_faults:
-                    raise world.new_exc(f"{kind}cb:{tid}")
+                    t.user_raised = world.new_exc(f"{kind}cb:{tid}")
+                    raise t.user_raised
         cb.__name__ = f"{kind}cb{req.idx}"
         if spec.get("partial"):
             # a callback with positional arguments bound in advance: cb(<bound>, task_id)
